@@ -2,8 +2,12 @@
   MpModel/DrvEncl.lean — driver ops for the verified reference evaluator.
     encl <fun> <wp> <m> <e>                      →  P:<lo_m>,<lo_e>,<hi_m>,<hi_e>   |  N: (no enclosure)
     acc  <fun> <m_x> <e_x> <m_y> <e_y> <p> <k>   →  ok | violates | undecided
+    encl2 <fun2> <wp> <m_x> <e_x> <m_y> <e_y>     →  P:… | N:        (fun2 = pow | powm1 | hypot | logb)
+    acc2 <fun2> <m_x> <e_x> <m_y> <e_y> <m_z> <e_z> <p> <k>          →  ok | violates | undecided
+    accsinc <m_x> <e_x> <m_y> <e_y> <p> <k>,  accroot <n> <m_x> <e_x> <m_y> <e_y> <p> <k>,  rootexact <n> <m_x> <e_x> <m_y> <e_y> → B:0|1
 -/
 import MpModel.Encl
+import MpModel.Encl2
 
 namespace DrvEncl
 open Mp.Encl
@@ -23,6 +27,31 @@ def parseFun (s : String) : Option FunId :=
   | "acosh" => some .acosh | "atanh" => some .atanh | "sinpi" => some .sinpi | "cospi" => some .cospi
   | _ => none
 
+def parseFun2 (s : String) : Option Fun2 :=
+  match s with
+  | "pow" => some .pow | "powm1" => some .powm1 | "hypot" => some .hypot | "logb" => some .logb
+  | _ => none
+
+/-- range guard of the DRIVER (not of the evaluator): requests whose intermediate exponents would exceed what the
+runtime's `Nat.pow`/shifts accept (arguments of exp-like functions above 2^24, exponents beyond ±2^24, powers with
+|y·log x| above 2^24) are answered `undecided` / `N:` — always a sound answer. -/
+def expLike (f : FunId) : Bool :=
+  f == .exp || f == .sinh || f == .cosh || f == .tanh || f == .expm1
+
+def safe1 (f : FunId) (x : Dy) : Bool :=
+  let mag : Int := (blen x.m : Int) + x.e
+  decide (x.e.natAbs < 16777216) && (!(expLike f) || decide (mag ≤ 24))
+
+def safe2 (f : Fun2) (x y : Dy) : Bool :=
+  decide (x.e.natAbs < 16777216) && decide (y.e.natAbs < 16777216) &&
+  (match f with
+   | .pow | .powm1 =>
+     let mag : Int := (blen x.m : Int) + x.e
+     -- log2 |log2 x| estimated from above: for x in [1/2, 2) from the distance to 1, otherwise from the exponent
+     let lx : Int := if mag = 0 ∨ mag = 1 then 2 - ((x.sub Dy.one).lowBits : Int) else (blen mag : Int) + 1
+     decide ((blen y.m : Int) + y.e + lx ≤ 24) && decide (((blen x.m : Int) + x.e).natAbs < 16777216)
+   | _ => true)
+
 def showDI (I : DI) : String := s!"P:{I.lo.m},{I.lo.e},{I.hi.m},{I.hi.e}"
 
 def showV : Verdict → String
@@ -35,6 +64,7 @@ def answer (toks : List String) : Option String :=
     let wp ← wp.toNat?
     let m ← parseInt m
     let e ← parseInt e
+    if !(safe1 f ⟨m, e⟩) then pure "N:" else
     match evalPoint f wp ⟨m, e⟩ with
     | some I => pure (showDI I)
     | none => pure "N:"
@@ -46,7 +76,30 @@ def answer (toks : List String) : Option String :=
     let ey ← parseInt ey
     let p ← p.toNat?
     let k ← k.toNat?
+    if !(safe1 f ⟨mx, ex⟩) || decide (ey.natAbs ≥ 16777216) then pure "undecided" else
     pure (showV (accCheck f ⟨mx, ex⟩ ⟨my, ey⟩ p k))
+  | ["encl2", f, wp, mx, ex, my, ey] => do
+    let f ← parseFun2 f
+    let wp ← wp.toNat?
+    let x : Dy := ⟨← parseInt mx, ← parseInt ex⟩
+    let y : Dy := ⟨← parseInt my, ← parseInt ey⟩
+    if !(safe2 f x y) then pure "N:" else
+    match eval2 f wp x y with
+    | some I => pure (showDI I)
+    | none => pure "N:"
+  | ["acc2", f, mx, ex, my, ey, mz, ez, p, k] => do
+    let f ← parseFun2 f
+    let x : Dy := ⟨← parseInt mx, ← parseInt ex⟩
+    let y : Dy := ⟨← parseInt my, ← parseInt ey⟩
+    let z : Dy := ⟨← parseInt mz, ← parseInt ez⟩
+    if !(safe2 f x y) || decide (z.e.natAbs ≥ 16777216) then pure "undecided" else
+    pure (showV (accCheck2 f x y z (← p.toNat?) (← k.toNat?)))
+  | ["accsinc", mx, ex, my, ey, p, k] => do
+    pure (showV (accCheckSinc ⟨← parseInt mx, ← parseInt ex⟩ ⟨← parseInt my, ← parseInt ey⟩ (← p.toNat?) (← k.toNat?)))
+  | ["accroot", n, mx, ex, my, ey, p, k] => do
+    pure (showV (rootCheck (← n.toNat?) ⟨← parseInt mx, ← parseInt ex⟩ ⟨← parseInt my, ← parseInt ey⟩ (← p.toNat?) (← k.toNat?)))
+  | ["rootexact", n, mx, ex, my, ey] => do
+    pure (if rootExact (← n.toNat?) ⟨← parseInt mx, ← parseInt ex⟩ ⟨← parseInt my, ← parseInt ey⟩ then "B:1" else "B:0")
   | _ => none
 
 end DrvEncl
